@@ -452,6 +452,8 @@ class ImageBatch(DataTensor):
         grid = self.grids()
         if dim < 0:
             dim += self.ndim
+        if start < 0:
+            start += self.shape[dim]
         if dim == 0:
             grid = grid[start : start + length]
         elif dim > 1:
